@@ -101,22 +101,24 @@ func (r *positionalRelation) Map(f func(Values) (Value, error)) (Set, error) {
 	return sb.Finish()
 }
 
-func (r *positionalRelation) Where(p func(Values) (bool, error)) (_ *positionalRelation, err error) {
+func (r *positionalRelation) Where(p func(Values) (bool, error)) (*positionalRelation, error) {
+	// The callback may run on several goroutines at once.
+	var failure firstError
 	set := r.set.Where(func(elem any) bool {
-		if err != nil {
+		if failure.get() != nil {
 			return false
 		}
 		if elem == nil {
 			return false
 		}
-		match, err2 := p(elem.(Values))
-		if err2 != nil {
-			err = err2
+		match, err := p(elem.(Values))
+		if err != nil {
+			failure.set(err)
 			return false
 		}
 		return match
 	})
-	if err != nil {
+	if err := failure.get(); err != nil {
 		return &positionalRelation{}, err
 	}
 	return &positionalRelation{set: set}, nil
